@@ -286,6 +286,43 @@ Section Base.
     ex (S f) P (I OP_drop a b t :: c) s = ex f P c (mkSt (s_in s) (s_root s) p t0 r (s_sr s) (s_mis s)).
   Proof. intros. cbn [exec exec1 I i_op]. rewrite H. reflexivity. Qed.
 
+  Lemma x_save_arr : forall f P a b t c s n e, s_vt s = TArr n e ->
+    ex (S f) P (I OP_save a b t :: c) s =
+    ex f P c (mkSt (s_in s) (s_root s) (s_vp s ++ [PElem 0]) e ((s_vp s, TArr n e) :: s_stk s) (s_sr s) (s_mis s)).
+  Proof. intros. cbn [exec exec1 I i_op]. rewrite H. reflexivity. Qed.
+
+  Lemma x_index_arr : forall f P a b t c s n e, s_vt s = TArr n e ->
+    ex (S f) P (I OP_index a b t :: c) s = ex f P c (mv s (s_vp s ++ [PElem a]) e).
+  Proof. intros. cbn [exec exec1 I i_op i_vi]. rewrite H. reflexivity. Qed.
+
+  Lemma x_array_clear : forall f P a b t c s ap n e stk k vis hid,
+    s_stk s = (ap, TArr n e) :: stk -> s_vp s = ap ++ [PElem k] -> getp (s_root s) ap = VList vis hid ->
+    ex (S f) P (I OP_array_clear a b t :: c) s =
+    ex f P c (mkSt (s_in s) (setp (s_root s) ap (VList (pad_to n (zero e) (firstn k vis)) hid)) (s_vp s) (s_vt s) (s_stk s) (s_sr s) (s_mis s)).
+  Proof.
+    intros. cbn [exec exec1 I i_op]. rewrite H, H0, rev_unit, H1. rewrite <- H, <- H0. reflexivity.
+  Qed.
+
+  Lemma x_array_skip : forall f P a b t c s,
+    ex (S f) P (I OP_array_skip a b t :: c) s =
+    match skip_ws (s_in s) with
+    | [] => Err
+    | c0 :: r0 =>
+      if c0 =? 93 then Err else
+      if ctl && negb (match pvalue (parse_fuel (c0 :: r0)) true (91 :: c0 :: r0) with Some (j, _) => strict_jv j | None => true end)
+      then Unk else
+      match pvalue (parse_fuel (c0 :: r0)) ctl (91 :: c0 :: r0) with
+      | Some (_, r) => ex f P c (adv s r)
+      | None => Err
+      end
+    end.
+  Proof.
+    intros. cbn [exec exec1 I i_op]. destruct (skip_ws (s_in s)) as [|c0 r0]; [reflexivity|].
+    destruct (c0 =? 93); [reflexivity|].
+    destruct (ctl && negb _); [reflexivity|].
+    destruct (pvalue (parse_fuel (c0 :: r0)) ctl (91 :: c0 :: r0)) as [[j r]|]; reflexivity.
+  Qed.
+
   Lemma x_end : forall f P s, ex (S f) P [] s = Ok s.
   Proof. reflexivity. Qed.
 End Base.
@@ -366,4 +403,36 @@ Section Elems.
     Lemma NPV_arr_nil : skip_ws r0 = [] -> NPV o inp.
     Proof. intros W2 [|f]; [reflexivity|]. simpl. rewrite W. simpl. rewrite W2. reflexivity. Qed.
   End Arr.
+  (* skip_array reads the remaining elements as if a new array started here *)
+  Lemma skip_rest : forall c0 r0, is_ws c0 = false -> (c0 =? 93) = false ->
+    match pvalue (parse_fuel (c0 :: r0)) ctl (91 :: c0 :: r0) with
+    | Some (_, r) => exists l, PE o (c0 :: r0) (l, r)
+    | None => NPE o (c0 :: r0)
+    end.
+  Proof.
+    intros c0 r0 W D. unfold parse_fuel. cbn [length].
+    replace (2 * S (length r0) + 2)%nat with (S (2 * S (length r0) + 1)) by lia.
+    cbn [pvalue]. rewrite (skip_ws_nows 91 (c0 :: r0)) by reflexivity. cbn [N.eqb Pos.eqb]. cbv iota.
+    rewrite (skip_ws_nows c0 r0 W). rewrite D.
+    destruct (pelems (2 * S (length r0) + 1) ctl (c0 :: r0) []) as [[es rest]|] eqn:E.
+    - exists es. eexists. exact E.
+    - intros f. destruct (pelems f ctl (c0 :: r0) []) as [[l r]|] eqn:E2; [|reflexivity].
+      rewrite (pelems_bound ctl _ _ _ _ _ E2) in E; [discriminate|]. cbn [length]. lia.
+  Qed.
+
+  Lemma skip_rest_det : forall c0 r0 j r l rest, is_ws c0 = false -> (c0 =? 93) = false ->
+    pvalue (parse_fuel (c0 :: r0)) ctl (91 :: c0 :: r0) = Some (j, r) -> PE o (c0 :: r0) (l, rest) -> r = rest.
+  Proof.
+    intros c0 r0 j r l rest W D H [f E]. unfold parse_fuel in H. cbn [length] in H.
+    replace (2 * S (length r0) + 2)%nat with (S (2 * S (length r0) + 1)) in H by lia.
+    cbn [pvalue] in H. rewrite (skip_ws_nows 91 (c0 :: r0)) in H by reflexivity. cbn [N.eqb Pos.eqb] in H. cbv iota in H.
+    rewrite (skip_ws_nows c0 r0 W), D in H.
+    rewrite (pelems_bound ctl _ _ _ _ _ E (2 * S (length r0) + 1)) in H by (cbn [length]; lia).
+    inversion H. reflexivity.
+  Qed.
+
+  Lemma NPV_close : forall inp r, skip_ws inp = 93 :: r -> NPV o inp.
+  Proof.
+    intros inp r W [|f]; [reflexivity|]. simpl. rewrite W. reflexivity.
+  Qed.
 End Elems.
